@@ -50,6 +50,13 @@ def run_patch(name, path):
         env = dict(os.environ, VERIF_REPO=dst, VERIF_EVID=os.path.join(d, "evid"))
         p = subprocess.run([os.path.join(F.VERIF, "check"), "all"], env=env, capture_output=True, text=True)
         fired = sorted({ln[len("  violated: ") :].split(" : ")[0] + "@" + ln[len("  violated: ") :].split(" : ")[1] for ln in p.stdout.split("\n") if ln.startswith("  violated: ")})
+        lim = os.path.join(os.path.dirname(path), "limit.json")
+        if os.path.exists(lim):
+            # a behaviour-preserving change that is KNOWN to be reported, by fail-closed obligations only (DESIGN §13.13): the
+            # rules it may fire are listed; anything else is a false alarm, and silence is an improvement to record
+            allowed = set(json.load(open(lim))["may_fire"])
+            extra = [f_ for f_ in fired if f_.split("@")[0] not in allowed]
+            return dict(name=name, kind="benign", status="FALSE-ALARM" if extra else ("known-limit" if fired else "ok(limit gone)"), fired=extra or fired)
         return dict(name=name, kind="benign", status="ok" if not fired else "FALSE-ALARM", fired=fired)
     finally:
         shutil.rmtree(d, ignore_errors=True)
@@ -69,7 +76,7 @@ def main(argv):
         for r in results:
             print("%-12s %-8s %s" % (r["status"], r["name"], "; ".join(r.get("fired", [])) if r["status"] != "SKIPPED" else r["detail"]))
             bad += r["status"] == "FALSE-ALARM"
-        print("selftest patches: %d refactorings, %d false alarms" % (len(results), bad))
+        print("selftest patches: %d refactorings, %d false alarms, %d reported within a documented limit" % (len(results), bad, sum(1 for r in results if r["status"] == "known-limit")))
         return 1 if bad else 0
     sel = [a for a in argv if not a.startswith("-")]
     jobs = []
